@@ -11,6 +11,7 @@ import Nic.Drv.Shapes
 import Nic.Drv.Policies
 import Nic.Drv.Lex
 import Nic.Drv.Re
+import Nic.Drv.Name
 /-!
   Model driver: one case per input line `<kind> <id> k=v ...`; for each it
   prints `model <id> <observation>` and `spec <id> <verdict>`.
@@ -18,7 +19,7 @@ import Nic.Drv.Re
 open Nic
 
 def dispatch (kind : String) (fs : List String) : Option (String × String) :=
-  (Drv.C13.run kind fs) <|> (Drv.Arb.run kind fs) <|> (Drv.Cls.run kind fs) <|> (Drv.Eps.run kind fs) <|> (Drv.Files.run kind fs) <|> (Drv.AP.run kind fs) <|> (Drv.Derived.run kind fs) <|> (Drv.Refs.run kind fs) <|> (Drv.Reload.run kind fs) <|> (Drv.Shapes.run kind fs) <|> (Drv.Policies.run kind fs) <|> (Drv.Lex.run kind fs) <|> (Drv.Re.run kind fs)
+  (Drv.C13.run kind fs) <|> (Drv.Arb.run kind fs) <|> (Drv.Cls.run kind fs) <|> (Drv.Eps.run kind fs) <|> (Drv.Files.run kind fs) <|> (Drv.AP.run kind fs) <|> (Drv.Derived.run kind fs) <|> (Drv.Refs.run kind fs) <|> (Drv.Reload.run kind fs) <|> (Drv.Shapes.run kind fs) <|> (Drv.Policies.run kind fs) <|> (Drv.Lex.run kind fs) <|> (Drv.Re.run kind fs) <|> (Drv.Name.run kind fs)
 
 partial def loop (h : IO.FS.Stream) (out : IO.FS.Stream) : IO Unit := do
   let line ← h.getLine
